@@ -55,7 +55,9 @@ FIRST = {'C03-s1', 'C04-s1', 'C05-s1', 'C05-s2', 'C13-s1', 'C08-s2', 'C09-s1', '
          'C11-u2', 'C12-u1', 'C12-u2', 'C13-u1', 'C14-u1', 'C15-u1', 'C16-u1', 'C17-u1', 'C17-u2', 'C19-u1', 'C19-u2',
          'C01-v2', 'C03-v1', 'C04-v1', 'C05-v2', 'C07-v1', 'C07-v2', 'C08-v1', 'C09-v2', 'C10-v2', 'C11-v2', 'C12-v1',
          'C12-v2', 'C13-v1', 'C13-v2', 'C14-v2', 'C15-v1', 'C15-v2', 'C16-v1', 'C16-v2', 'C17-v1', 'C17-v2', 'C18-v1',
-         'C18-v2', 'C19-v2', 'C20-v1'}
+         'C18-v2', 'C19-v2', 'C20-v1',
+         'C02-w2', 'C05-w1', 'C07-w2', 'C08-w1', 'C12-w1', 'C12-w2', 'C13-w1', 'C14-w1', 'C16-w1', 'C16-w2', 'C18-w2',
+         'C20-w1', 'C03-w2', 'C06-w2', 'C10-w1', 'C11-w1', 'C11-w2', 'C13-w2'}
 n = c = 0
 for d in sorted(glob.glob(os.path.join(ROOT, 'seeded', '*'))):
     meta = json.load(open(os.path.join(d, 'meta.json')))
